@@ -685,8 +685,12 @@ class PyvalColorizer:
             # In Python < 3.9, non-slices are always wrapped in an Index node.
             sub = sub.value
         self._output('[', self.GROUP_TAG, state)
-        if isinstance(sub, ast.Tuple):
-            self._multiline(self._colorize_iter, sub.elts, state)
+        if isinstance(sub, ast.Tuple) and len(sub.elts) == 0:
+            self._output('()', self.GROUP_TAG, state)
+        elif isinstance(sub, ast.Tuple):
+            # a tuple of one element needs its ending comma, otherwise it's not a tuple anymore.
+            self._multiline(self._colorize_iter, sub.elts, state, 
+                            suffix=(',' if len(sub.elts) == 1 else None))
         else:
             state.result.append(self.WORD_BREAK_OPPORTUNITY)
             self._colorize(sub, state)
